@@ -311,3 +311,41 @@ func VerifC03_Dedup() {
 		}
 	}
 }
+
+// VerifC12_LateWaiter: three callers of one ID, one of them asking twice, upstream always
+// succeeding: a caller that wakes up late must not disturb the bookkeeping of a newer request
+// (at most one upstream request for the ID in flight, every result from an overlapping request).
+func VerifC12_LateWaiter() {
+	vPreempt(2)
+	u := &verifUpstreamOK{}
+	q := NewDedupQueue(u)
+	r := &verifRecorder{}
+	id := verifID(0)
+	var wg sync.WaitGroup
+	for c := 0; c < 3; c++ {
+		twice := c == 0
+		wg.Add(1)
+		go func() {
+			defer wg.Done()
+			r.get(q, id)
+			if twice {
+				r.get(q, id)
+			}
+		}()
+	}
+	wg.Wait()
+	vCover("all-callers-returned")
+	vAssert(len(r.recs) == 4, "a caller did not return")
+	verifCheckDedup(r, &u.verifUpstream)
+}
+
+// verifUpstreamOK is verifUpstream with every GetChunk succeeding (no outcome choice).
+type verifUpstreamOK struct{ verifUpstream }
+
+func (u *verifUpstreamOK) GetChunk(id ChunkID) (*Chunk, error) {
+	c := u.begin("get", id)
+	vYield()
+	c.chunk = NewChunk([]byte{id[0], 1})
+	u.finish(c)
+	return c.chunk, c.err
+}
